@@ -59,6 +59,7 @@ type endpoint struct {
 	garbageLen int
 	garbage    []byte // ref only: the bytes (possibly re-crafted late)
 	hsDecoys   []int
+	verLen     int // reference endpoints: length of the version packet's contents (receivers must ignore them)
 	pkts       []pkt
 	// ref behaviour knobs
 	refEarlyKey     bool // responder: send key right after the first mismatching byte
@@ -325,7 +326,7 @@ func (e *endpoint) runRef() {
 	} else if len(e.hsDecoys) == 1 && e.refWrongAAD == 5 {
 		va = first
 	}
-	w.Write(ep.S.Send.EncPacket(nil, va, false))
+	w.Write(ep.S.Send.EncPacket(make([]byte, e.verLen), va, false))
 
 	if err := ep.ReceiveGarbageAndVersion(w); err != nil {
 		fail("complete", err)
